@@ -57,6 +57,23 @@ def gen_cases(rng, tier):
                 evs.append(_recv(d, 10 * (d + 1) + 2, "b%d" % r, cid="c0", tt="l0"))
                 evs.append(_recv(d, 10 * (d + 1) + 1, "c%d" % r, cid="c0", tt="l0"))
             cases.append(["fork%d" % fk, "c10", setup, ",".join(evs)]); fk += 1
+    # usages come and go while the dialog lives: a request is offered to exactly the usages whose guard is alive at that moment
+    uk = 0
+    for seq in (["U", "D:0", "U", "R"], ["D:0", "U", "R", "D:1", "R"], ["U", "U", "D:1", "U", "R", "D:3", "R", "D:0", "R"], ["D:0", "D:1", "U", "R"], ["U", "D:2", "D:0", "U", "U", "R", "D:1", "R"],
+                ["D:1", "R", "U", "R", "D:2", "R", "U", "R"]):
+        evs = []
+        c = 100
+        evs.append(_recv(0, c, "q0")); c += 1
+        for i, e in enumerate(seq):
+            if e == "R":
+                evs.append(_recv(0, c, "q%d" % (i + 1))); c += 1
+            elif e == "U":
+                evs.append("U:0")
+            else:
+                evs.append("D:0:%s" % e.split(":")[1])
+        cases.append(["usg%d" % uk, "c10", "C:2", ",".join(evs)]); uk += 1
+    for j, evs in enumerate(([_recv(0, 100, "k0"), "K:1", _recv(0, 101, "k1")], ["K:10"], [_recv(0, 5, "k0"), "D:0:0", "K:3", "U:0", _recv(0, 6, "k1")])):
+        cases.append(["stale%d" % j, "c10", "C:1", ",".join(evs)])
     # exhaustive permutations
     bases = [("S", 7), ("S", 0), ("C", None), ("S", U32 - 8)]
     for k in range(1, maxk + 1):
@@ -190,12 +207,21 @@ def oracle(case, impl):
     st = []
     for i, d in enumerate(setup):
         st.append({"next": None if d["base"] is None else d["base"] + 1, "parked": {}, "usages": list(range(d["nus"])),
-                   "delivered": set()})
+                   "delivered": set(), "registered": d["nus"]})
     for e, o in zip(evs, obs):
         if e[0] == "D":
             d, u = int(e[1]), int(e[2])
             if u in st[d]["usages"]:
                 st[d]["usages"].remove(u)
+            continue
+        if e[0] == "K":
+            if o != "-":
+                out.append("register_usage for a dialog that does not exist returned a guard (%s)" % o)
+            continue
+        if e[0] == "U":
+            d = int(e[1])
+            st[d]["usages"].append(st[d]["registered"])
+            st[d]["registered"] += 1
             continue
         _, cid, ft, tt, cseq, rid, ack = e
         cseq = int(cseq)
